@@ -69,6 +69,7 @@ func acceptedWorkload(c *fw.Ctx, scale int, emit emitFn) {
 		"TYPE @t\n1\n", "TYPE @t\n{\"k\": @u}\nTYPE @u\n{\"l\": @t // {optional: true}\n}\n", "TYPE @t\n[1]\n", "TYPE @t\n\"s\" // {enum: @e}\nENUM @e\n[\"s\", \"t\"]\n",
 		"TYPE @t\n{\"k\": 1}\nTYPE @u\n{\"m\": \"s\"}\nTYPE @base\n{\n  \"x\": @t|@u,\n  \"y\": @t  |  @u,\n  \"z\": @u |@t\n}\nTYPE @d\n{ // {allOf: \"@base\"}\n  \"own\": 1\n}\n",
 		"TYPE @t\n{\"k\": 1}\nTYPE @u\n[1]\nTYPE @base\n{\n  \"x\": @t| @u // {optional: true}\n}\n",
+		"TYPE [@t]\n1\n", "TYPE [@t]\n1\nTYPE [@u]\n2\n", "TYPE [@t] regex\n/a/\nTYPE [@u] any\n",
 		"ENUM @e\n[\"x\", \"y\"]\n", "ENUM @e\n[]\n", "ENUM @e\n[ # nothing\n]\n", "ENUM @e\n[1, 2 // two\n]\n", "TYPE @t\n{\"k\": 1}\nENUM @e\n[\"x\"]\nTYPE @u\n{\"p\": @t}\n"}
 	pick := func(ss []string) string { return ss[r.Intn(len(ss))] }
 	sch := func() string {
